@@ -84,7 +84,9 @@ long_name = st.builds(lambda c, n, e: c * n + e, st.sampled_from(["a", "b9", "\x
 
 # names that CONTAIN what some code looks for at the start of a selector or in a request line
 quirky_name = st.sampled_from(["cURL: tips.txt", "xURL:http:y", "my URL:s", "aURL:", "GET x HTTP", "a gemini:", "x.zip.txt", "not.mbox.txt",
-                               "file.gophermapx", "x.tal.txt", "README.html.bak", "a|b", "a?b", "50% off", "a+b c", "wapx", "x.pyg.txt"])
+                               "file.gophermapx", "x.tal.txt", "README.html.bak", "a|b", "a?b", "50% off", "a+b c", "wapx", "x.pyg.txt",
+                               # literal percent escapes in a NAME (decoded once too often they name something else)
+                               "a%41.txt", "a%20b", "100%25", "%2e%2e", "x%2fy", "%E9t%C3%A9"])
 
 
 def names(gopher_ok=True, hostile_ratio=0.4, toplevel=True, full=False, long_ratio=0):
